@@ -47,6 +47,7 @@ def norm(spec):
     s.setdefault("sibling_contract", False)  # pset/pdel: the (otherwise bare) getter of the same property carries contracts
     s.setdefault("explicit_enabled", False)  # add enabled=True to every contract decorator (C15: interpreter modes)
     s.setdefault("foreign", None)  # a foreign functools.wraps decorator on the leaf: None|top|mid|bottom
+    s.setdefault("err_base", False)  # the error classes derive from BaseException (documented as supported)
     s.setdefault("recreate", False)  # re-create the leaf class from its own namespace (dataclass(slots=True) does)
     s.setdefault("post_old", "all")  # do postcondition *conditions* ask for OLD ("all") or only the error factories ("none")
     for lv in s["levels"]:
@@ -186,7 +187,7 @@ def render(spec):
     for li in range(nlev):
         pres, posts, snaps, invs = cond_names(spec, li)
         for name in pres + posts + invs:
-            w("class E_{0}(Exception): pass\nEI_{0} = E_{0}('inst')\n".format(name))
+            w("class E_{0}({1}): pass\nEI_{0} = E_{0}('inst')\n".format(name, "BaseException" if spec.get("err_base") else "Exception"))
         for name in pres:
             w("def EF_{0}({1}):\n    LOG.append(('errfac', '{0}', _same({1})))\n    return E_{0}('fac')\n".format(name, A))
             if spec["style"] in ("def", "adef"):
@@ -536,6 +537,12 @@ class Program:
         """One execution in a fresh context. Returns (log, outcome)."""
         return core.fresh_ctx_run(self._call, truth, body_mode, mut, shape)
 
+    def call_twice(self, truth, body_mode="ret_obj", mut="none", shape="pos"):
+        """The same call twice in ONE fresh context (a history of length 2). Returns ((log, outcome), (log, outcome))."""
+        def go():
+            return self._call(truth, body_mode, mut, shape), self._call(truth, body_mode, mut, shape)
+        return core.fresh_ctx_run(go)
+
     def _call(self, truth, body_mode, mut, shape):
         ns, spec = self.ns, self.spec
         kind = spec["kind"]
@@ -664,7 +671,7 @@ def feat(spec, shape="-", body_mode="-", mut="-"):
         "inv": "/".join(str(lv["inv"]) for lv in spec["levels"]),
         "inv_on": "/".join(lv["inv_on"] for lv in spec["levels"]),
         "defines": "/".join("1" if lv["defines"] else "0" for lv in spec["levels"]),
-        "style": spec["style"], "err": spec["err"], "layout": spec["layout"], "cap_alias": spec["cap_alias"],
+        "style": spec["style"], "err": spec["err"], "err_base": spec.get("err_base", False), "layout": spec["layout"], "cap_alias": spec["cap_alias"],
         "post_old": spec["post_old"], "foreign": spec["foreign"], "recreate": spec.get("recreate", False), "sibling_contract": spec["sibling_contract"],
         "shape": shape, "body": body_mode, "mut": mut,
     }
